@@ -222,11 +222,15 @@ class ProgressBar(object):
         """
         Finish the progress output.
         """
-        if not self._max:
+        max_was_unknown = not self._max
+
+        if max_was_unknown:
+            # Only now does the bar become full: the frame changes
             self._max = self._step
 
         if (
-            self._step == self._max
+            not max_was_unknown
+            and self._step == self._max
             and not self._should_overwrite
             and self._displayed_step == self._step
         ):
